@@ -993,11 +993,16 @@ func runC12Unresolved(c *Ctx) {
 		}
 		// the "undefined function" return is exempt: it reports the name itself
 		undefined := false
-		for _, in := range b.Instrs {
-			if call, ok := in.(ssa.CallInstruction); ok {
-				if f := staticCallee(call.Common()); f != nil && FuncName(f) == "(*ExprSemanticsChecker).errorf" {
-					if s, ok := constString(call.Common().Args[2]); ok && strings.HasPrefix(s, "undefined function") {
-						undefined = true
+		for _, blk := range fn.Blocks {
+			if blk != b && !blk.Dominates(b) {
+				continue
+			}
+			for _, in := range blk.Instrs {
+				if call, ok := in.(ssa.CallInstruction); ok {
+					if f := staticCallee(call.Common()); f != nil && FuncName(f) == "(*ExprSemanticsChecker).errorf" {
+						if s, ok := constString(call.Common().Args[2]); ok && strings.HasPrefix(s, "undefined function") {
+							undefined = true
+						}
 					}
 				}
 			}
